@@ -143,11 +143,52 @@ type callSeq struct {
 	calls []string
 }
 
+// programs: Builders that are used for several streams (Reset or Build
+// between them), for PDF 1.7 and 2.0.  Fixed programs aim at the rules that
+// depend on the version (q/Q inside a text object, 28 open q); seeded random
+// ones follow.
+func programs(ctx *core.Ctx) []program {
+	var out []program
+	deep := func(n int) []string {
+		var s []string
+		for i := 0; i < n; i++ {
+			s = append(s, "q")
+		}
+		for i := 0; i < n; i++ {
+			s = append(s, "Q")
+		}
+		return s
+	}
+	fixed := [][][]string{
+		{{"q", "Q"}, {"BT", "q", "Q", "ET"}, {"BT", "q", "Q", "ET"}},
+		{{"BT", "q", "Q", "ET"}, {"re", "f"}},
+		{{"re", "f"}, deep(28), deep(29), deep(29)},
+		{{"q", "BT", "Tj"}, {"BT", "Td", "q", "TL", "Q", "ET"}, deep(30)},
+		{{"BMC", "BT", "ET", "EMC"}, {"q", "BT", "Q", "ET"}, {"BT", "BMC", "q", "Q", "EMC", "ET"}},
+	}
+	for _, pre2 := range []bool{true, false} {
+		for _, mode := range []string{"reset", "build"} {
+			for _, f := range fixed {
+				out = append(out, program{pre2: pre2, mode: mode, streams: f})
+			}
+		}
+	}
+	r := ctx.Rand("programs")
+	seqs := randomCalls2(r, ctx.Pick(1500, 15000))
+	for i := 0; i+2 < len(seqs); i += 3 {
+		out = append(out, program{pre2: r.Intn(3) > 0, mode: []string{"reset", "build"}[r.Intn(2)],
+			streams: [][]string{seqs[i].calls, seqs[i+1].calls, seqs[i+2].calls}})
+	}
+	return out
+}
+
 // randomCalls: longer Builder programs, biased towards calls the current
 // state allows (so that the runs get deep) with some that it does not.
 func randomCalls(ctx *core.Ctx) []callSeq {
-	r := ctx.Rand("calls")
-	n := ctx.Pick(3000, 30000)
+	return randomCalls2(ctx.Rand("calls"), ctx.Pick(3000, 30000))
+}
+
+func randomCalls2(r *rand.Rand, n int) []callSeq {
 	out := make([]callSeq, 0, n)
 	for i := 0; i < n; i++ {
 		cs := callSeq{pre2: r.Intn(2) == 0}
